@@ -3,8 +3,9 @@
 Deciding monitors: a two-dict model (wrapped contents + buffer) run in lock step with the real
 ScratchDB over a RecordingDB; an online trace checker refuses every mutation event on the
 wrapped database while the block is open; all action sequences up to a bound x pre-contents x
-do_deletes x every exit position (normal, or the caller's exception after action i) are
-enumerated."""
+do_deletes x every exit position (normal, or the caller's exception after action i - an
+Exception subclass, a non-Exception BaseException subclass, KeyboardInterrupt or GeneratorExit)
+are enumerated."""
 import itertools
 import sys
 
@@ -32,9 +33,9 @@ EXHAUSTIVE = {
                 "x 4 pre-contents x do_deletes x every exit position",
 }
 FLOORS = {
-    "quick": {"cases_commit": 5000, "cases_abort": 10000, "reads_checked": 20000,
+    "quick": {"cases_commit": 5000, "cases_abort": 10000, "cases_abort_baseexception": 5000, "reads_checked": 20000,
               "read_through_after_delete": 1000, "open_block_events": 20000},
-    "thorough": {"cases_commit": 100000, "cases_abort": 300000, "reads_checked": 500000,
+    "thorough": {"cases_commit": 100000, "cases_abort": 300000, "cases_abort_baseexception": 100000, "reads_checked": 500000,
                  "read_through_after_delete": 20000, "open_block_events": 500000},
 }
 
@@ -47,6 +48,14 @@ class Boom(Exception):
     pass
 
 
+class BoomBase(BaseException):
+    """a caller exception that is not an Exception (cf. asyncio.CancelledError, SystemExit)"""
+
+
+# ways of leaving the block exceptionally; case["exc"] indexes this list (default 0)
+EXITS = [Boom, BoomBase, KeyboardInterrupt, GeneratorExit]
+
+
 def run_case(case, ctx):
     W = {k.encode(): v.encode() for k, v in case["pre"].items()}
     wrapped = RecordingDB(W)
@@ -54,6 +63,7 @@ def run_case(case, ctx):
     dd = case["do_deletes"]
     actions = case["actions"]
     exit_at = case["exit"]
+    exc_cls = EXITS[case.get("exc", 0) % len(EXITS)]
     C = {}
     st = {"open": False, "events": 0}
 
@@ -77,7 +87,7 @@ def run_case(case, ctx):
             try:
                 for i, a in enumerate(actions):
                     if exit_at == i:
-                        raise Boom()
+                        raise exc_cls()
                     k = a[1].encode()
                     if a[0] == "set":
                         v = a[2].encode()
@@ -117,11 +127,11 @@ def run_case(case, ctx):
                     if wrapped.raw() != W:
                         raise Violation("scratch-wrapped-mutated-while-open", "wrapped contents changed inside the block")
                 if exit_at is not None and exit_at >= len(actions):
-                    raise Boom()
+                    raise exc_cls()
             finally:
                 st["open"] = False
 
-    res = cut(block, expect=(Boom,))
+    res = cut(block, expect=tuple(EXITS))
     ctx.count("open_block_events", st["events"])
     if wrapped.pending_trace_violation is not None:
         tv = wrapped.pending_trace_violation
@@ -132,6 +142,8 @@ def run_case(case, ctx):
         if wrapped.raw() != W:
             raise Violation("scratch-abort-changed-wrapped", "wrapped database changed by a batch left by an exception: %r -> %r" % (W, wrapped.raw()))
         ctx.count("cases_abort")
+        if exc_cls is not Boom:
+            ctx.count("cases_abort_baseexception")
     else:
         exp = dict(W)
         for k, v in C.items():
@@ -176,7 +188,10 @@ def enumerate_cases(ctx, menu, maxlen, start_idx=0):
                 for dd in (False, True):
                     for ex in [None] + list(range(L + 1)):
                         if idx % ctx.nshards == ctx.shard:
-                            yield {"pre": pre, "do_deletes": dd, "actions": [list(a) for a in seq], "exit": ex}
+                            # the kind of exception rotates over the enumeration (Exception subclass,
+                            # BaseException subclass, KeyboardInterrupt, GeneratorExit)
+                            yield {"pre": pre, "do_deletes": dd, "actions": [list(a) for a in seq], "exit": ex,
+                                   "exc": (idx // ctx.nshards) % len(EXITS)}
                         idx += 1
 
 
@@ -208,7 +223,7 @@ def run_shard(ctx):
         L = rnd.randint(4, 12)
         seq = [list(rnd.choice(menu)) for _ in range(L)]
         case = {"pre": rnd.choice(PRE), "do_deletes": bool(rnd.randrange(2)), "actions": seq,
-                "exit": rnd.choice([None, None] + list(range(L + 1)))}
+                "exit": rnd.choice([None, None] + list(range(L + 1))), "exc": rnd.randrange(len(EXITS))}
         if i == 0:
             ctx.sample(case)
         run_case_guarded(mod, case, ctx)
